@@ -17,6 +17,8 @@ import (
 	"fmt"
 	"io"
 	"log/slog"
+	"os"
+	"path/filepath"
 	"runtime"
 	"runtime/debug"
 	"sort"
@@ -31,6 +33,9 @@ import (
 	"reduction.dev/reduction/dkv/storage"
 	"reduction.dev/reduction/partitioning"
 	"reduction.dev/reduction/proto"
+	"reduction.dev/reduction/proto/jobpb"
+	"reduction.dev/reduction/proto/snapshotpb"
+	"reduction.dev/reduction/proto/workerpb"
 	"reduction.dev/reduction/util/verifhook"
 	"reduction.dev/reduction/workers/operator"
 	"verif/harness/lib"
@@ -50,6 +55,11 @@ type c09Inst struct {
 	events   []string
 	ckptIDs  []uint64
 	hangWait time.Duration
+	// a real operator.Operator serving this instance (deployed through HandleDeploy); neighbours then ask it through
+	// HandleNeedsTable
+	op        *operator.Operator
+	deployReq *workerpb.DeployOperatorRequest
+	srcDocs   []string // documents the deploy reads (relative paths)
 }
 
 type c09Handle struct {
@@ -59,8 +69,8 @@ type c09Handle struct {
 
 type c09World struct {
 	mu       sync.Mutex
-	prefix   string // memory:///c09-<seq>/
-	root     *storage.MemoryFilesystem
+	prefix   string // URI prefix of the case's file store
+	store    c09Store
 	insts    []*c09Inst
 	grave    []*dkv.DB // crashed instances: their objects must never run cleanups during the case
 	cleanups []string
@@ -76,6 +86,63 @@ type c09World struct {
 }
 
 func (w *c09World) canon(uri string) string { return strings.TrimPrefix(uri, w.prefix) }
+
+// c09Store is the file store all instances of a case share: the repository's in-memory filesystem, or a directory
+// on a RAM disk when real operator.Operators take part (HandleDeploy builds its filesystem from a location string).
+type c09Store interface {
+	instFS(name string) storage.FileSystem
+	list() []string // relative paths of all table and WAL files
+	exists(rel string) bool
+	read(rel string) ([]byte, error)
+	location() string // StorageLocation for an operator deploy ("" if operators cannot use this store)
+	hide(rel string, hidden bool) error
+	close()
+}
+
+type c09MemStore struct{ root *storage.MemoryFilesystem }
+
+func (m *c09MemStore) instFS(name string) storage.FileSystem { return m.root.WithWorkingDir(name) }
+func (m *c09MemStore) list() []string                        { return m.root.List() }
+func (m *c09MemStore) exists(rel string) bool                { return m.root.Exists(rel) }
+func (m *c09MemStore) read(rel string) ([]byte, error) {
+	return io.ReadAll(&storage.Cursor{File: m.root.Open(rel)})
+}
+func (m *c09MemStore) location() string                   { return "" }
+func (m *c09MemStore) hide(rel string, hidden bool) error { return errors.New("unsupported") }
+func (m *c09MemStore) close()                             {}
+
+type c09DirStore struct{ dir string }
+
+func (d *c09DirStore) instFS(name string) storage.FileSystem {
+	os.MkdirAll(filepath.Join(d.dir, name), 0o755)
+	return &storage.LocalFilesystem{Dir: filepath.Join(d.dir, name)}
+}
+func (d *c09DirStore) list() []string {
+	var out []string
+	filepath.WalkDir(d.dir, func(p string, e os.DirEntry, err error) error {
+		if err == nil && !e.IsDir() {
+			if rel, err := filepath.Rel(d.dir, p); err == nil {
+				out = append(out, rel)
+			}
+		}
+		return nil
+	})
+	return out
+}
+func (d *c09DirStore) exists(rel string) bool {
+	_, err := os.Stat(filepath.Join(d.dir, rel))
+	return err == nil
+}
+func (d *c09DirStore) read(rel string) ([]byte, error) { return os.ReadFile(filepath.Join(d.dir, rel)) }
+func (d *c09DirStore) location() string                { return d.dir }
+func (d *c09DirStore) hide(rel string, hidden bool) error {
+	p := filepath.Join(d.dir, rel)
+	if hidden {
+		return os.Rename(p, p+".unavailable")
+	}
+	return os.Rename(p+".unavailable", p)
+}
+func (d *c09DirStore) close() { os.RemoveAll(d.dir) }
 
 // ---- fake neighbour operator ----
 
@@ -101,14 +168,27 @@ func (n *c09Neighbor) NeedsTable(ctx context.Context, uri string) (bool, error) 
 		}
 	}
 	var db *dkv.DB
+	var op *operator.Operator
 	mode := "err"
 	if target != nil {
-		db, mode = target.db, target.mode
+		db, op, mode = target.db, target.op, target.mode
 	}
 	n.w.mu.Unlock()
 	switch mode {
 	case "truthful":
+		if op != nil {
+			return c09AskOperator(op, uri)
+		}
 		return db.NeedsTable(uri), nil
+	case "slow":
+		// answers "yes", but only after longer than any deadline a caller might reasonably impose; a caller that gives
+		// up first gets its own context error
+		select {
+		case <-ctx.Done():
+			return false, ctx.Err()
+		case <-time.After(c09SlowAnswer):
+			return true, nil
+		}
 	case "hang":
 		select {
 		case <-ctx.Done():
@@ -118,6 +198,18 @@ func (n *c09Neighbor) NeedsTable(ctx context.Context, uri string) (bool, error) 
 		}
 	}
 	return false, errors.New("operator unavailable")
+}
+
+const c09SlowAnswer = 6500 * time.Millisecond
+
+// c09AskOperator is the RPC adapter in front of a real operator: a panicking handler is an error for the caller
+func c09AskOperator(op *operator.Operator, uri string) (needed bool, err error) {
+	defer func() {
+		if r := recover(); r != nil {
+			needed, err = false, fmt.Errorf("NeedsTable: %v", r)
+		}
+	}()
+	return op.HandleNeedsTable(uri), nil
 }
 
 // ---- ownership wrapper: attributes every cleanup decision to its instance ----
@@ -260,7 +352,7 @@ type c09Doc struct {
 }
 
 func (w *c09World) readDoc(writer int) (*c09Doc, error) {
-	data, err := io.ReadAll(&storage.Cursor{File: w.root.Open(fmt.Sprintf("i%d/checkpoints", writer))})
+	data, err := w.store.read(fmt.Sprintf("i%d/checkpoints", writer))
 	if err != nil {
 		return nil, err
 	}
@@ -299,7 +391,7 @@ func (w *c09World) docEntry(writer int, id uint64) (tables []string, uris []stri
 
 func (w *c09World) listFiles() []string {
 	var out []string
-	for _, p := range w.root.List() {
+	for _, p := range w.store.list() {
 		if strings.HasSuffix(p, ".sst") || strings.HasSuffix(p, ".wal") {
 			out = append(out, p)
 		}
@@ -414,7 +506,21 @@ func runC09(c lib.Case) []string {
 	c09ForceGC(5 * time.Second)
 	c09Seq++
 	dir := fmt.Sprintf("c09-%d", c09Seq)
-	w := &c09World{nextID: 1, prefix: "memory:///" + dir + "/", root: storage.NewMemoryFilesystem().WithWorkingDir(dir)}
+	w := &c09World{nextID: 1}
+	if c09Field(hf, "fs") == "local" {
+		base := os.TempDir()
+		if st, err := os.Stat("/dev/shm"); err == nil && st.IsDir() {
+			base = "/dev/shm"
+		}
+		tmp, err := os.MkdirTemp(base, "verif-"+dir+"-")
+		if err != nil {
+			panic(err)
+		}
+		w.store, w.prefix = &c09DirStore{dir: tmp}, tmp+"/"
+	} else {
+		w.store, w.prefix = &c09MemStore{root: storage.NewMemoryFilesystem().WithWorkingDir(dir)}, "memory:///"+dir+"/"
+	}
+	defer w.store.close()
 	verifhook.Set(w.hook)
 	defer func() {
 		runtime.KeepAlive(w.grave)
@@ -494,7 +600,7 @@ func runC09(c lib.Case) []string {
 				for _, wi := range fromWs {
 					_, uris, wals, _ := w.docEntry(wi, fromID)
 					for _, u := range append(uris, wals...) {
-						if !w.root.Exists(u) {
+						if !w.store.exists(u) {
 							lost = true
 						}
 					}
@@ -602,7 +708,7 @@ func runC09(c lib.Case) []string {
 			broken := false
 			for _, l := range x.db.VerifLevels().VerifLayout() {
 				for _, ti := range l {
-					if !w.root.Exists(w.canon(ti.URI)) {
+					if !w.store.exists(w.canon(ti.URI)) {
 						broken = true
 					}
 				}
@@ -824,7 +930,7 @@ func runC09(c lib.Case) []string {
 			out = append(out, "ok")
 		case "gc":
 			before := w.listFiles()
-			ok := c09ForceGC(5 * time.Second)
+			ok := c09ForceGC(12 * time.Second)
 			w.mu.Lock()
 			cl := w.cleanups
 			w.cleanups = nil
